@@ -291,7 +291,9 @@ def validateJumps (O : PyOracle) (passages : List (Line Ã— PPassage)) : List J â
   | [] => pure ()
   | t :: rest => do
     if jGetStr t "type" == some "jump".toList then
-      validateCall O passages ((jGetStr t "target").getD []) ((jGetStr t "args").getD [])
+      -- (`@join` is the target of a choice: a passage-level jump to it is rejected)
+      if strEq ((jGetStr t "target").getD []) "@join" then synErrNoLoc "-> @join is only valid as the target of a choice"
+      else validateCall O passages ((jGetStr t "target").getD []) ((jGetStr t "args").getD [])
     validateJumps O passages rest
 
 def validateArgs (O : PyOracle) (passages : List (Line Ã— PPassage)) : List (Line Ã— PPassage) â†’ PM Unit
